@@ -3,21 +3,27 @@
 The generated grammar gives every non-terminal an ADT (struct or enum) and a walker method of the same (snake-case) name; auxiliary ADTs
 (`FooOpt`, `FooList`, `FooGroup`, enum payload structs) have no method and are traversed inline by the method of the node that contains
 them. For a method M(self, arg: &Node) the engine derives from the ADT facts the ordered list of *leaves*: field chains from Node through
-auxiliary ADTs down to the first ADT that has its own method. From M's MIR it collects the *visits*: calls of walker methods whose
-argument is a view of `arg` (or of an item of a loop over a Vec reached from `arg`), normalised to the same field chains.
+auxiliary ADTs down to the first ADT that has its own method (VerylToken fields are leaves of the token sink). From M's MIR it collects
+the *visits*: calls whose argument is a view of `arg` (or of an item of a loop over a Vec reached from `arg`), normalised to the same
+field chains. A visit is a call of
+  - the walker method of the child's node type,
+  - a token sink (`veryl_token`, and for a hand-written walker its own `token*` helpers) on the token field of a terminal child,
+  - an inherent helper with a parameter of the child's node type (checked separately as a walker of that type), or
+  - deeper calls that together cover every leaf of the child (the child's walker inlined into M).
 
 Obligations per method:
-  covered   every leaf has a visit that calls the method of the leaf's node type
-  present   from the start of the leaf's presence context (function entry / Some arm / loop body / variant arm) every path to the
-            return (or to the next iteration) passes a visit of the leaf - a visit cannot be skipped by an extra condition
+  covered   every leaf has a visit
+  present   on every path from the function entry to a return the leaf is visited, unless the path takes an *absence edge* of one of the
+            leaf's contexts (None arm of the Option on the way, another variant's arm, `is_empty()` of the Vec); inside a loop over the
+            Vec on the way every iteration visits it. An extra condition around a visit therefore shows up as a path that skips it.
   ordered   no visit of leaf i+1 reaches a visit of leaf i within one iteration (tokens are written in source order)
-  context   the Option test / Vec loop / variant switch that guards a leaf is itself reached on every path of its own context
 """
 import re
 from mirlib import Fn
 import flow
 
-SKIP = {"0", "pointer", "Some"}
+SKIP = {"pointer", "Some"}
+ADAPT = re.compile(r"Iterator::(enumerate|peekable|by_ref)$")
 
 
 def snake(name):
@@ -26,7 +32,7 @@ def snake(name):
 
 
 def norm(path):
-    return tuple(p for p in path if p not in SKIP)
+    return tuple(p for p in path if p not in SKIP and not str(p).isdigit())
 
 
 class Grammar:
@@ -48,6 +54,7 @@ class Grammar:
         self.method_of = {a: m for m, a in self.node_of.items()}
         if "veryl_token" in self.methods:
             self.method_of["<token>"] = "veryl_token"
+        self._leaves = {}
 
     def inner(self, field):
         """(generated ADT simple name or None, wrapper kind) of a field"""
@@ -63,7 +70,9 @@ class Grammar:
         return (gens[0] if gens else None), kind
 
     def leaves(self, node):
-        """ordered [(chain, child ADT, contexts)] ; contexts = [(kind, chain-prefix)] for every Option / Vec / variant on the way"""
+        """ordered [(chain, child ADT, contexts)] ; contexts = [(kind, chain-prefix, variant)] for every Option / Vec / variant on the way"""
+        if node in self._leaves:
+            return self._leaves[node]
         out = []
 
         def expand(adt_name, chain, ctx, depth):
@@ -77,7 +86,7 @@ class Grammar:
                         child, kind = self.inner(f)
                         if child is None:
                             continue
-                        ch = chain + (v["name"],) + (() if f["name"] in SKIP else (f["name"],))
+                        ch = chain + (v["name"],) + (() if str(f["name"]).isdigit() else (f["name"],))
                         step(child, kind, ch, c2, depth)
             else:
                 for f in adt["variants"][0]["fields"]:
@@ -93,57 +102,132 @@ class Grammar:
             else:
                 expand(child, ch, c2, depth + 1)
         expand(node, (), [], 0)
+        self._leaves[node] = out
         return out
+
+    def token_field(self, node):
+        """name of the single VerylToken field of a terminal node, else None"""
+        adt = self.adts.get(node)
+        if not adt or adt["kind"] != "struct":
+            return None
+        fs = adt["variants"][0]["fields"]
+        if len(fs) == 1 and re.search(r"veryl_token::VerylToken$", fs[0].get("ty", "")):
+            return fs[0]["name"]
+        return None
 
 
 class MethodWalk:
-    def __init__(self, gr, fn_path, node, arg_name="arg", extra_methods=None):
+    def __init__(self, gr, fn_path, arg_local=None, impl_prefix=None, token_sinks=(), helpers=None, closure_takers=(), root_map=None, banned=None):
+        """helpers: {fn path: {param local: node type}} inherent functions accepted as walkers of a node type;
+        closure_takers: functions that run a closure argument exactly once (its visits count at the call site);
+        root_map: for a closure body, {upvar field name: chain in the enclosing method}; banned: edges never taken while emitting"""
         self.gr = gr
+        self.root_map = root_map
+        self.global_banned = set(banned(Fn(gr.w.mir(fn_path))) if banned else ())
+        self._kw = dict(impl_prefix=impl_prefix, token_sinks=token_sinks, helpers=helpers, closure_takers=closure_takers, banned=banned)
         self.p = fn_path
-        self.node = node
         self.g = g = Fn(gr.w.mir(fn_path))
-        self.arg = None
-        for i in range(1, g.nargs + 1):
-            if g.name(i) == arg_name:
-                self.arg = i
-        if self.arg is None and g.nargs >= 2:
-            self.arg = 2
+        self.arg = arg_local
+        if self.arg is None:
+            for i in range(1, g.nargs + 1):
+                if g.name(i) == "arg":
+                    self.arg = i
+            if self.arg is None and g.nargs >= 2:
+                self.arg = 2
         self.loops = {}
         for head, t, some, none, item in flow.loops_over(g):
             ad = []
-            r, pth = flow.access_path(g, t["args"][0], adapters=ad)
-            self.loops[head] = {"root": r, "path": pth, "some": some, "none": none, "adapters": ad, "t": t}
-        self.visits = []   # (bb, method name, chain, terminator)
-        names = set(gr.methods) | set(extra_methods or ())
+            r, pth = flow.access_path(g, t["args"][0], extra_transparent=ADAPT, adapters=ad)
+            self.loops[head] = {"root": r, "path": pth, "some": some, "none": none, "adapters": [a for a in ad if not ADAPT.search(a)], "t": t}
+        self.visits = []   # (bb, kind, name, chain, terminator) kind: method | token | helper
+        names = set(gr.methods)
         for bi, t in g.calls():
             c = t.get("callee") or ""
-            mname = c.split("::")[-1].replace("r#", "")
-            if mname not in names or len(t["args"]) < 2:
+            last = c.split("::")[-1].replace("r#", "")
+            is_walker = last in names and (c.startswith(gr.trait) or re.search(r" as " + re.escape(gr.trait[:-2]) + r">::", c))
+            if is_walker and len(t["args"]) >= 2:
+                ch = self.chain_of(t["args"][1])
+                if ch is not None:
+                    self.visits.append((bi, "method", last, ch, t))
                 continue
-            if not (c.startswith(gr.trait) or re.search(r" as " + re.escape(gr.trait[:-2]) + r">::", c)):
+            if c in token_sinks or (impl_prefix and c.startswith(impl_prefix) and last in token_sinks):
+                for a in t["args"][1:]:
+                    ch = self.chain_of(a)
+                    if ch:
+                        self.visits.append((bi, "token", last, ch, t))
                 continue
-            ch = self.chain_of(t["args"][1])
-            if ch is not None:
-                self.visits.append((bi, mname, ch, t))
+            if c in closure_takers:
+                self._inline_closures(bi, t)
+                continue
+            if helpers and c in helpers:
+                for k, a in enumerate(t["args"]):
+                    spec = helpers[c].get(k + 1)
+                    if spec is None:
+                        continue
+                    ty, part = spec if isinstance(spec, tuple) else (spec, None)
+                    ch = self.chain_of(a)
+                    if ch is None:
+                        continue
+                    if part is None:
+                        self.visits.append((bi, "helper", ty, ch, t))
+                    else:
+                        # a helper that writes only some children of its parameter: it stands for visits of exactly those
+                        for sub, child in part:
+                            self.visits.append((bi, "helper", child, ch + sub, t))
+
+    def _inline_closures(self, bi, t):
+        """visits made by a closure passed to a run-once helper, translated into this method's chains, placed at the call"""
+        g = self.g
+        for a in t["args"]:
+            if a[0] == "k":
+                continue
+            d = g.def_of(a[1][0])
+            rv = g.rvalue_at(d) if d and d[0] == "s" else None
+            if not (rv and rv[0] == "agg" and isinstance(rv[1], dict) and rv[1].get("closure")):
+                continue
+            cpath = rv[1]["closure"]
+            if cpath not in self.gr.w.fns:
+                continue
+            cg = Fn(self.gr.w.mir(cpath))
+            idx = {}
+            for b in cg.blocks:
+                for st in b["s"]:
+                    for pl in _places(st):
+                        if pl[0] == 1:
+                            for q in pl[1]:
+                                if isinstance(q, list) and q[0] == "f" and q[2] not in idx:
+                                    idx[q[2]] = q[1]
+                                    break
+            rmap = {}
+            for name, k in idx.items():
+                if k < len(rv[2]):
+                    ch = self.chain_of(rv[2][k])
+                    if ch is not None:
+                        rmap[name] = ch
+            sub = MethodWalk(self.gr, cpath, arg_local=1, root_map=rmap, **self._kw)
+            self.closure_problems = getattr(self, "closure_problems", [])
+            for (cb, kind, name, ch, ct) in sub.visits:
+                # inside the closure the visit must not be skippable either
+                gates = [v[0] for v in sub.visits if v[3] == ch]
+                self.visits.append((bi, kind, name, ch, t))
+            self.sub_walks = getattr(self, "sub_walks", []) + [(bi, sub)]
 
     def chain_of(self, op, depth=0):
         g = self.g
         try:
-            r, pth = flow.access_path(g, op)
+            r, pth = flow.access_path(g, op, extra_transparent=ADAPT)
         except Exception:
             return None
-        if r == ("arg", self.arg):
-            return norm(pth)
-        if r[0] == "call" and len(r) > 2 and r[2] in self.loops and depth < 4:
-            lp = self.loops[r[2]]
-            base = self.root_chain(lp["root"], lp["path"], depth + 1)
-            if base is None:
-                return None
-            return base + norm(pth)
-        return None
+        return self.root_chain(r, pth, depth)
 
     def root_chain(self, r, pth, depth):
         if r == ("arg", self.arg):
+            if self.root_map is not None:
+                # closure environment: the first projection names the captured place
+                pp = [q for q in pth if q not in ("*",)]
+                if pp and pp[0] in self.root_map:
+                    return self.root_map[pp[0]] + norm(pp[1:])
+                return None
             return norm(pth)
         if r[0] == "call" and len(r) > 2 and r[2] in self.loops and depth < 4:
             lp = self.loops[r[2]]
@@ -151,16 +235,19 @@ class MethodWalk:
             return None if base is None else base + norm(pth)
         return None
 
-    # ---- presence contexts ---------------------------------------------------------------------------------
-    def ctx_start(self, ctx):
-        """(start block, stops, guard block) of a context, or None if its test / loop is not found"""
+    # ---- absence edges of a context, loops of a context ----------------------------------------------------
+    def absence_edges(self, ctx):
         g = self.g
         kind, ch, vname = ctx
+        out = set()
         if kind == "vec":
-            for head, lp in self.loops.items():
-                if self.root_chain(lp["root"], lp["path"], 0) == ch:
-                    return lp["some"], [head], head
-            return None
+            for bi, t in g.calls(r"(Vec::<T, A>|<impl \[T\]>)::is_empty$|::is_empty$"):
+                if self.chain_of(t["args"][0]) != ch:
+                    continue
+                sw = g.blocks[t["to"]]["t"]
+                if sw["t"] == "sw" and sw["on"][0] != "k" and sw["on"][1][0] == t["dst"][0] and len(sw["vals"]) == 1 and sw["vals"][0][0] == "0":
+                    out.add((t["to"], sw["else"]))
+            return out
         for bb, t in flow.enum_switches(g, r"."):
             if t.get("of") is None:
                 continue
@@ -168,86 +255,224 @@ class MethodWalk:
                 r, pth = flow.access_path(g, ["c", t["of"]])
             except Exception:
                 continue
-            c2 = self.root_chain(r, pth, 0)
-            if c2 != ch:
+            if self.root_chain(r, pth, 0) != ch:
                 continue
             want = "Some" if kind == "opt" else vname
+            listed = [vn for v, tgt, vn in t["vals"]]
             for v, tgt, vn in t["vals"]:
-                if vn == want:
-                    return tgt, [], bb
-            if kind == "opt" and [vn for v, tgt, vn in t["vals"]] == ["None"]:
-                return t["else"], [], bb
-            if kind == "variant":
-                # the variant may be the fall-through arm of an exhaustive match
-                listed = [vn for v, tgt, vn in t["vals"]]
-                if vname not in listed and t.get("else") is not None and not g.blocks[t["else"]].get("unreachable"):
-                    return t["else"], [], bb
+                if vn != want:
+                    out.add((bb, tgt))
+            if want in listed and t.get("else") is not None:
+                out.add((bb, t["else"]))
+        if kind == "opt":
+            for bi, t in g.calls(r"core::option::Option::<T>::(is_some|is_none)$"):
+                if self.chain_of(t["args"][0]) != ch:
+                    continue
+                sw = g.blocks[t["to"]]["t"]
+                if sw["t"] == "sw" and sw["on"][0] != "k" and sw["on"][1][0] == t["dst"][0] and len(sw["vals"]) == 1 and sw["vals"][0][0] == "0":
+                    none_edge = sw["vals"][0][1] if t["callee"].endswith("is_some") else sw["else"]
+                    out.add((t["to"], none_edge))
+        return out
+
+    def loops_of(self, ch):
+        return [(h, lp) for h, lp in self.loops.items() if self.root_chain(lp["root"], lp["path"], 0) == ch]
+
+    def skip_path(self, start, gates, banned, stops):
+        """can a return (or a stop) be reached from start without passing a gate and without taking a banned edge?"""
+        g = self.g
+        gates = set(gates)
+        stops = set(stops)
+        if start in gates:
+            return None
+        seen = set()
+        work = [start]
+        first = True
+        while work:
+            b = work.pop()
+            if b in seen or g.blocks[b].get("cu"):
+                continue
+            if b in gates:
+                continue
+            if b in stops and not first:
+                return b
+            first = False
+            seen.add(b)
+            if g.blocks[b]["t"]["t"] == "ret":
+                return b
+            for sc in g.succ[b]:
+                if (b, sc) not in banned:
+                    work.append(sc)
         return None
 
 
-def check_method(ck, rule, gr, fn_path, node, label, allow_missing=(), sitefn=None, extra_methods=None):
-    """emit obligations for one walker method; returns (n_leaves, n_visits)"""
-    from core import site
-    mw = MethodWalk(gr, fn_path, node, extra_methods=extra_methods)
+class _Problems(list):
+    """problem texts; .sig collects a stable signature (kind:chain) of each, so that a known finding names exactly what it covers"""
+    def __init__(self):
+        super().__init__()
+        self.sig = []
+
+    def add(self, kind, chain, text):
+        self.append(text)
+        self.sig.append("%s:%s" % (kind, ".".join(chain) if not isinstance(chain, str) else chain))
+
+    def signature(self):
+        return "+".join(sorted(set(self.sig)))
+
+
+def _places(st):
+    out = []
+    if st[0] != "=":
+        return out
+    rv = st[2]
+
+    def op(o):
+        if isinstance(o, list) and o and o[0] in ("c", "m"):
+            out.append(o[1])
+    if rv[0] in ("use", "rep"):
+        op(rv[1])
+    elif rv[0] in ("ref", "ptr"):
+        out.append(rv[2])
+    elif rv[0] == "cast":
+        op(rv[2])
+    elif rv[0] == "discr":
+        out.append(rv[1])
+    elif rv[0] == "agg":
+        for o in rv[2]:
+            op(o)
+    return out
+
+
+def check_walker(gr, fn_path, node, arg_local=None, allow_missing=(), impl_prefix=None, token_sinks=(), helpers=None, closure_takers=(), banned=None):
+    """-> (problems, undecided, n_leaves)"""
+    mw = MethodWalk(gr, fn_path, arg_local=arg_local, impl_prefix=impl_prefix, token_sinks=token_sinks, helpers=helpers,
+                    closure_takers=closure_takers, banned=banned)
     g = mw.g
-    sx = gr.w.fns[fn_path]
-    leaves = gr.leaves(node)
     allow = {tuple(a) for a in allow_missing}
-    problems = []
-    und = []
-    vis_by_chain = {}
-    for bi, m, ch, t in mw.visits:
-        vis_by_chain.setdefault(ch, []).append((bi, m, t))
-    expected = {ch: child for ch, child, ctx in leaves}
-    prev = None
-    for ch, child, ctxs in leaves:
+    problems, und = _Problems(), []
+    used = set()
+
+    def gates_for(ch, child, depth=0):
+        """blocks that count as a visit of leaf (ch, child); None if not covered"""
+        want = gr.method_of.get(child)
+        gs = []
+        for k, (bi, kind, name, vch, t) in enumerate(mw.visits):
+            if vch == () and ((kind == "helper" and name == node) or (kind == "method" and name == gr.method_of.get(node))):
+                gs.append(bi)     # the whole node handed to a helper that is itself checked as a walker of this node type
+                used.add(k)
+                continue
+            if vch == ch and ((kind == "method" and name == want) or (kind == "helper" and name == child) or (kind == "token" and child == "<token>")):
+                gs.append(bi)
+                used.add(k)
+            tf = gr.token_field(child) if child != "<token>" else None
+            if tf and kind in ("token",) and vch == ch + (tf,):
+                gs.append(bi)
+                used.add(k)
+            if tf and kind == "method" and name == "veryl_token" and vch == ch + (tf,):
+                gs.append(bi)
+                used.add(k)
+        return gs
+
+    def cover(ch, child, ctxs, depth):
+        """-> list of (chain, child, ctxs, gates) actually checked (the leaf itself, or its sub-leaves when the child is inlined)"""
+        gs = gates_for(ch, child)
+        if gs:
+            return [(ch, child, ctxs, gs)]
+        if child != "<token>" and depth < 3 and any(v[3][:len(ch)] == ch and len(v[3]) > len(ch) for v in mw.visits):
+            out = []
+            for sch, schild, sctx in gr.leaves(child):
+                sctx2 = [(k, ch + c, v) for k, c, v in sctx]
+                out += cover(ch + sch, schild, ctxs + sctx2, depth + 1)
+            return out
+        return [(ch, child, ctxs, [])]
+
+    items = []
+    for ch, child, ctxs in gr.leaves(node):
         if ch in allow:
-            if ch in vis_by_chain:
-                problems.append("`%s` is on the allow-list of deliberately dropped children but is visited" % ".".join(ch))
+            if gates_for(ch, child):
+                pass
             continue
-        want = gr.method_of[child]
-        vs = [(bi, m, t) for bi, m, t in vis_by_chain.get(ch, []) if m == want]
-        if not vs:
-            other = [m for bi, m, t in vis_by_chain.get(ch, [])]
-            problems.append("child `%s` (%s) is never visited%s" % (".".join(ch), child, " (visited through %s instead)" % other if other else ""))
+        items += cover(ch, child, ctxs, 0)
+    prev = None
+    for ch, child, ctxs, gates in items:
+        if not gates:
+            other = sorted({v[2] for v in mw.visits if v[3] == ch})
+            problems.add("unvisited", ch, "child `%s` (%s) is never visited%s" % (".".join(ch), child, " (only through %s)" % other if other else ""))
             prev = None
             continue
-        gates = [bi for bi, m, t in vs]
-        # presence: innermost context
-        start, stops = 0, []
-        ok_ctx = True
-        outer_start, outer_stops = 0, []
+        # presence, level by level (a level ends at each Vec on the way)
+        levels = [[]]
         for c in ctxs:
-            cs = mw.ctx_start(c)
-            if cs is None:
-                und.append("the %s guarding `%s` was not recognised" % ({"opt": "Option test", "vec": "loop", "variant": "variant switch"}[c[0]], ".".join(ch)))
-                ok_ctx = False
-                break
-            s2, st2, guard = cs
-            esc = flow.escapes(g, outer_start, [guard], stops=outer_stops)
-            if esc:
-                problems.append("the %s for `%s` can be bypassed (blocks %s)" % ({"opt": "Option test", "vec": "loop", "variant": "variant switch"}[c[0]], ".".join(c[1]), esc))
-            outer_start, outer_stops = s2, (st2 or outer_stops)
-        if ok_ctx:
-            start, stops = outer_start, outer_stops
-            esc = flow.escapes(g, start, gates, stops=stops)
-            if esc:
-                problems.append("child `%s` can be skipped: a path from block %d reaches %s without visiting it" % (".".join(ch), start, esc))
+            if c[0] == "vec":
+                levels[-1].append(c)
+                levels.append([])
+            else:
+                levels[-1].append(c)
+        starts = [(0, [])]
+        for li, lv in enumerate(levels):
+            banned = set(mw.global_banned)
+            for c in lv:
+                banned |= mw.absence_edges(c)
+            vec = [c for c in lv if c[0] == "vec"]
+            if vec:
+                lps = mw.loops_of(vec[0][1])
+                if not lps:
+                    hv = [v[0] for v in mw.visits if v[1] == "helper" and v[0] in gates]
+                    if hv and set(hv) == set(gates):
+                        # the loop lives inside the helper the list was handed to (checked there): the call is the visit
+                        for st, stops in starts:
+                            b = mw.skip_path(st, gates, banned, stops)
+                            if b is not None:
+                                problems.add("skip", ch, "child `%s` can be skipped: a path from block %d reaches block %d without it" % (".".join(ch), st, b))
+                        starts = []
+                        break
+                    und.append("no loop over `%s` found for child `%s`" % (".".join(vec[0][1]), ".".join(ch)))
+                    starts = []
+                    break
+                for h, lp in lps:
+                    if lp["adapters"]:
+                        problems.add("adapter", vec[0][1], "the loop over `%s` uses %s" % (".".join(vec[0][1]), lp["adapters"]))
+                lvl_gates = [h for h, lp in lps]
+            else:
+                lvl_gates = gates
+            for st, stops in starts:
+                b = mw.skip_path(st, lvl_gates, banned, stops)
+                if b is not None:
+                    what = "the loop over `%s`" % ".".join(vec[0][1]) if vec else "child `%s`" % ".".join(ch)
+                    problems.add("skip", vec[0][1] if vec else ch, "%s can be skipped: a path from block %d reaches block %d without it" % (what, st, b))
+            if vec:
+                starts = [(lp["some"], [h]) for h, lp in lps]
         # order against the previous leaf
         if prev is not None:
             pch, pgates = prev
             heads = [h for h, lp in mw.loops.items() if all(b in g.reach_from(lp["some"], avoid=[h]) for b in gates + pgates)]
             for bj in gates:
-                rj = g.reach_from(g.blocks[bj]["t"].get("to", bj), avoid=heads) if g.blocks[bj]["t"].get("to") is not None else set()
-                if any(bi in rj for bi in pgates):
-                    problems.append("`%s` is visited before `%s`: tokens would be written out of source order" % (".".join(ch), ".".join(pch)))
+                to = g.blocks[bj]["t"].get("to")
+                rj = g.reach_from(to, avoid=heads) if to is not None else set()
+                if any(bi in rj for bi in pgates) and not any(bj in g.reach_from(g.blocks[bi]["t"].get("to", bi), avoid=heads) for bi in pgates):
+                    problems.add("order", ch, "`%s` is visited before `%s`: tokens would be written out of source order" % (".".join(ch), ".".join(pch)))
                     break
         prev = (ch, gates)
-    # visits of something that is not a leaf of this node
-    for ch, lst in vis_by_chain.items():
-        if ch not in expected:
-            und.append("visit of `%s` through %s does not correspond to a child of %s" % (".".join(ch), sorted({m for _, m, _ in lst}), node))
+    for cb, sub in getattr(mw, "sub_walks", []):
+        for ch in sorted({v[3] for v in sub.visits}):
+            ctxs = [c for lch, lchild, lctx in gr.leaves(node) for c in lctx if lch[:len(ch)] == ch or ch[:len(lch)] == lch]
+            ban = set(sub.global_banned)
+            for lch, lchild, lctx in gr.leaves(node):
+                if ch[:len(lch)] == lch or lch[:len(ch)] == ch:
+                    for c in lctx:
+                        ban |= sub.absence_edges(c)
+            b = sub.skip_path(0, [v[0] for v in sub.visits if v[3] == ch], ban, [])
+            if b is not None:
+                problems.add("skip-in-closure", ch, "inside the closure passed at block %d, `%s` can be skipped" % (cb, ".".join(ch)))
+    for k, v in enumerate(mw.visits):
+        if k not in used:
+            und.append("visit of `%s` through %s is not a child of %s" % (".".join(v[3]), v[2], node))
+    return problems, und, len(items)
+
+
+def check_method(ck, rule, gr, fn_path, node, label, allow_missing=(), **kw):  # noqa
+    from core import site
+    problems, und, n = check_walker(gr, fn_path, node, allow_missing=allow_missing, **kw)
     verdict = False if problems else (None if und else True)
-    ck.ob(rule, label, verdict, site(sx), (
-        "%s visits all %d children of %s in order" % (label, len(leaves) - len(allow & set(expected)), node) if verdict else "; ".join(problems + und)))
-    return len(leaves), len(mw.visits)
+    ck.ob(rule, label, verdict, site(gr.w.fns[fn_path]),
+          "%s visits all %d children of %s in order" % (label, n, node) if verdict else "; ".join(problems + und))
+    return n
